@@ -148,6 +148,8 @@ pub struct Scenario {
     pub servers: Vec<ServerSpec>,
     pub actors: Vec<Actor>,
     pub opts: Opts,
+    /// free-form expectations for the scenario's oracle
+    pub meta: serde_json::Value,
 }
 
 #[derive(Clone, Debug, Serialize, Deserialize)]
